@@ -246,6 +246,37 @@ func (fr *Frame) run(st *State) (*State, []Val) {
 	return out, res
 }
 
+// earlyExit: `loop N earlyexit expr` clauses. Leaving loop N from a block other than its header (break, goto, return:
+// to == nil) is allowed only in states where expr holds; `loop N earlyexit false` says the loop always runs to the end
+// of its range / until its condition fails.
+func (fr *Frame) earlyExit(st *State, from, to *ssa.BasicBlock) {
+	u := fr.u
+	if fr.fc == nil || len(fr.fc.EarlyExits) == 0 || u.dry > 0 || !fr.top || st.guard == "false" {
+		return
+	}
+	for ord := 1; ord <= len(fr.loops); ord++ {
+		cls := fr.fc.EarlyExits[ord]
+		if len(cls) == 0 {
+			continue
+		}
+		h := fr.loops[ord-1]
+		if from == h {
+			continue
+		}
+		body := loopBody(h)
+		if !body[from] || (to != nil && body[to]) {
+			continue
+		}
+		for i, c := range cls {
+			env := fr.specEnv(st, fr.entry)
+			env.header = fr.innermostLoopHeader(from)
+			env.softHeader = true
+			t := trBoolTol(env, c, "false")
+			u.oblige(st, "at", fmt.Sprintf("%s/exit:%d.%s", fr.fnLabel(), ord, clauseName(c, i)), t, blockPos(from), c, fmt.Sprintf("loop %d left early only if: %s", ord, c.Src))
+		}
+	}
+}
+
 type edgeIn struct {
 	from *ssa.BasicBlock
 	st   *State
@@ -327,6 +358,9 @@ func (fr *Frame) runRegion(order []*ssa.BasicBlock, set map[*ssa.BasicBlock]bool
 		default:
 			u.unsup("unknown terminator %T", last)
 		}
+		if _, isRet := last.(*ssa.Return); isRet {
+			fr.earlyExit(st, blk, nil)
+		}
 		for _, oe := range outs {
 			es := st.clone()
 			es.guard = and(st.guard, oe.cond)
@@ -335,6 +369,7 @@ func (fr *Frame) runRegion(order []*ssa.BasicBlock, set map[*ssa.BasicBlock]bool
 				u.assume(eq(g, es.guard))
 				es.guard = g
 			}
+			fr.earlyExit(es, blk, oe.to)
 			if oe.to.Dominates(blk) {
 				// back edge
 				if oe.to == dryHead {
@@ -824,7 +859,12 @@ func (fr *Frame) exec(st *State, in ssa.Instruction) {
 		u.heapStoreAt(st, h, r, u.enc.constArr("Int", es, u.enc.zero(el)))
 		fr.define(i, Val{T: app("mk_slice", r, "0", ln.T, cp.T)})
 	case *ssa.MakeChan:
-		fr.define(i, Val{T: u.newRef(st)})
+		// a channel is a fresh reference; its (immutable) capacity is recorded for cap(ch)
+		sz := fr.get(i.Size)
+		fr.safe(st, app("<=", "0", sz.T), i.Pos(), "makechan", "channel size not negative in make")
+		r := u.newRef(st)
+		u.assume(eq(app(u.chanCapFn(), r), sz.T))
+		fr.define(i, Val{T: r})
 	case *ssa.MakeClosure:
 		f := i.Fn.(*ssa.Function)
 		var bind []Val
@@ -1588,6 +1628,13 @@ func (u *Unit) strOfBytesFn() string {
 		u.enc.axioms = append(u.enc.axioms, "(forall ((r (Array Int Int)) (o Int) (n Int)) (! (=> (>= n 0) (= (str_len (str_of_bytes r o n)) n)) :pattern ((str_of_bytes r o n))))")
 	}
 	return "str_of_bytes"
+}
+
+func (u *Unit) chanCapFn() string {
+	if !u.enc.declared["chan_cap"] {
+		u.enc.declFun("chan_cap", []string{"Int"}, "Int")
+	}
+	return "chan_cap"
 }
 
 type partClause struct {
